@@ -212,8 +212,10 @@ def _case(draw: Any, args: dict) -> dict:
     style = draw(st.sampled_from(STYLES))
     pkgname = gen.pkg_name(draw(st.integers(0, 99)))
     modules = []
+    inits: dict[str, list] = {}
+    reexported: set[str] = set()
     mscope = Scope()
-    for _ in range(draw(st.integers(1, 3))):
+    for _ in range(draw(st.integers(1, 4))):
         mname = mscope.take(draw(st.sampled_from(["mod_a", "modB", "plain", "some_module_x", "m1", "_private_mod", "with_trailing_"])))
         scope = Scope()
         decls: list[dict] = []
@@ -241,9 +243,18 @@ def _case(draw: Any, args: dict) -> dict:
                 d["bases"] = _mro_safe(chosen, decls)
             if d["name"] in PLAIN:
                 earlier.append(d["name"])
-        sub = draw(st.sampled_from([[], [], ["sub_pkg"], ["sub_pkg", "deeper_one"], ["Camel"]]))
+        sub = draw(st.sampled_from([[], [], ["sub_pkg"], ["sub_pkg"], ["sub_pkg", "deeper_one"], ["Camel"], ["zeta"], ["zeta"], ["yard"], ["sub_pkg", "inner"]]))
         modules.append(gt.module([pkgname, *sub, mname], [decls[i] for i in perm], doc=draw(doc_texts()) if draw(st.booleans()) else None))
-    return {"pkg": gt.package(pkgname, modules), "options": {"nc": draw(st.booleans()), "docstyle": style}}
+        # the package of the module re-exports some of its functions / classes: they get stub files of their own
+        if draw(st.booleans()):
+            movable = [d for d in decls if d["t"] in {"func", "class"} and not d["name"].startswith("_") and not d.get("bases")]
+            base_names = {b[1] for d in decls if d["t"] == "class" for b in d.get("bases", []) if b[0] == "raw"}
+            for d in movable[: draw(st.integers(1, 2))]:
+                if d["name"] in base_names or d["name"] in reexported:
+                    continue  # (a moved superclass referenced from its origin module is C11's open finding)
+                reexported.add(d["name"])
+                inits.setdefault("/".join([pkgname, *sub]), []).append(["from", "." + mname, d["name"], None])
+    return {"pkg": gt.package(pkgname, modules, inits), "options": {"nc": draw(st.booleans()), "docstyle": style}}
 
 
 EXT_MRO = {"OrderedDict": ["OrderedDict", "dict", "object"], "ABC": ["ABC", "object"]}
